@@ -1279,7 +1279,7 @@ class Interp:
         """events with symbolic payloads evaluated under the last model"""
         m = getattr(s, 'last_model', None); out = []
         for tag, v in st.events:
-            if tag in ('reach', 'note'): out.append([tag, v]); continue
+            if type(tag) is str: out.append([tag, v]); continue
             if not isc(tag): tag = m.eval(s.z(tag, 32), model_completion=True).as_long()
             if not isc(v): v = m.eval(s.z(v, 64), model_completion=True).as_long()
             out.append([tag, v])
